@@ -147,6 +147,10 @@ func threadRun(L *LState) {
 			L.closeUpvalues(0)
 			if parent := L.Parent; parent != nil {
 				if L.wrapped {
+					// the error is raised in the resumer; the coroutine itself is dead
+					L.G.CurrentThread = parent
+					L.Parent = nil
+					L.kill()
 					L.Push(lv)
 					parent.Panic(L)
 				} else {
